@@ -86,3 +86,19 @@ Proof.
   destruct Hok as [_ [_ Hnd]]. exact (output_order_irrelevant V order kvs kvs' P Hnd).
 Qed.
 Print Assumptions c08_initial_values_order_irrelevant.
+
+(* symbol closure of the ANALYTIC update expressions: instantiating the value-level model of
+   generate_propagator_solver with "list of occurring symbols" (sum, product = concatenation), every symbol of the
+   update expression of an analytically solved variable is a propagator symbol of its own row, a state variable of the
+   same solver (a column with a non-zero propagator entry, or the row itself), the time-step symbol, or a symbol of
+   the row's own offset / particular solution, i.e. a constant of the input.  (Assumes SymPy's simplification of the
+   assembled expression introduces no symbol; checked on every returned dictionary by the probe.) *)
+From OdeVerif Require Import Model.Propagator Proofs.SymbolsP.
+Theorem c08_analytic_update_symbols_closed :
+  forall (S : Type) (n : nat) (X : nat -> S) (Pn : nat -> nat -> S) (H : S) (bsyms pssyms : nat -> list S)
+         (Pnz : nat -> nat -> bool) (bnz annz : nat -> bool) (r : nat) (s : S),
+    In s (usyms S n X Pn H bsyms pssyms Pnz bnz annz r) ->
+    (exists c, c < n /\ Pnz r c = true /\ (s = Pn r c \/ s = X c))
+    \/ s = Pn r r \/ s = X r \/ s = H \/ In s (bsyms r) \/ In s (pssyms r).
+Proof. exact update_symbols. Qed.
+Print Assumptions c08_analytic_update_symbols_closed.
